@@ -3,7 +3,7 @@
 # with the change applied (VERIF_REPO), evidence/replays redirected to a scratch dir.  Prints one line per change.
 TIER="${1:-quick}"; shift
 cd /verif
-WT=/var/tmp/gk-seeded-wt; SCR=/var/tmp/gk-seeded-scratch
+SFX="${SEEDED_SFX:-}"; WT=/var/tmp/gk-seeded-wt$SFX; SCR=/var/tmp/gk-seeded-scratch$SFX
 git -C /repo worktree remove --force $WT 2>/dev/null; rm -rf $WT $SCR
 git -C /repo worktree add -q --detach $WT HEAD || exit 3
 DIRS="$@"; [ -z "$DIRS" ] && DIRS=$(ls -d seeded/*/ | sort)
